@@ -324,48 +324,46 @@ class MultiConfmapPair(_Pair):
 
 
 # -------------------------------------------------------------- PartAffinityFieldsGenerator
-# NOT registered: both runs reach the sum-over-animals loop of make_multi_pafs through its
-# contract, which introduces a fresh abstract fold per call; equality of the two folds needs an
-# extensionality argument the solvers do not find (unknown).  The PAF block is listed under
-# not_decided.
-class PafPair(_Pair):
+# The PAF block is not compared with the function run-against-run (both reach the sum-over-animals
+# loop of make_multi_pafs through a contract that introduces a fresh abstract fold per call, and
+# the equality of two folds needs an extensionality argument the solvers do not find).  Instead
+# the block's output is held to the SAME closed-form contract generate_pafs is proved against
+# under C05 (kept animals, per-animal unit vector x weight, sum, channel layout, shape): two
+# results that both equal the closed form are equal.
+@contract
+class PafBlockMeetsFunctionContract(_Pair):
     target = D + "edge_maps.PartAffinityFieldsGenerator#vs-function"
     props = ("C18",)
     block = D + "edge_maps.PartAffinityFieldsGenerator"
     cases = ("nested", "flat")
     rand_ranges = {"H": (3, 10), "W": (3, 10), "N": (1, 3), "E": (0, 3), "I": (0, 3), "instances": (-2.0, 10.0), "edge_inds": (0, 2), "image": (0.0, 1.0), "sigma": (0.8, 2.0), "stride": (1, 2)}
+    dims = ("I", "N", "E", "H", "W", "stride")
+    dim_ranges = {"stride": (1, 2), "H": (1, 3), "W": (1, 3), "N": (1, 2), "E": (0, 2), "I": (0, 2)}
+
+    def _fn_contract(self):
+        from pyvc.contracts import REGISTRY
+
+        return REGISTRY.get(D + "edge_maps.generate_pafs")
 
     def inputs(self, c, case):
-        I, N, E, H, W = c.dim("I"), c.dim("N", lo=1), c.dim("E"), c.dim("H", lo=1), c.dim("W", lo=1)
-        sigma = c.real("sigma")
-        c.assume(V.f_lt(0.0, sigma))
-        ei = c.tensor("edge_inds", [E, 2], INT, lo=0, hi=None)
-        er = ei.reader()
-        if c.symbolic:
-            e, k = z3.Int("qe"), z3.Int("qk")
-            c.fact(z3.ForAll([e, k], V.zbool(V.b_implies(V.b_and(e >= 0, V.i_lt(e, E), k >= 0, k < 2), V.i_lt(er([e, k]), N)))))
-        return dict(example={"image": c.tensor("image", [1, 1, H, W], FLOAT, nan_ok=False), "instances": c.tensor("instances", [1, I, N, 2], FLOAT, nan_ok=True)},
-                    sigma=sigma, stride=c.int("stride", lo=1), edge_inds=ei, flat=(case == "flat"))
+        a = self._fn_contract().inputs(c, case)      # the function contract's own input space
+        H, W = a["img_hw"]
+        return dict(example={"image": c.tensor("image", [1, 1, H, W], FLOAT, nan_ok=False), "instances": a["instances"]},
+                    sigma=a["sigma"], stride=a["output_stride"], edge_inds=a["edge_inds"], flat=a["flatten_channels"])
 
     def requires(self, c, example, sigma, stride, edge_inds, flat):
-        er = edge_inds.reader()
-        N = example["instances"].shape[2]
-        return [("node-indices-in-range", Forall([edge_inds.shape[0], 2], lambda e, k: V.b_and(V.i_le(0, er([e, k])), V.i_lt(er([e, k]), N))))]
+        return self._fn_contract().requires(c, example["instances"], (example["image"].shape[-2], example["image"].shape[-1]), sigma, stride, edge_inds, flat)
 
     def block_kwargs(self, a):
         return dict(sigma=a["sigma"], output_stride=a["stride"], edge_inds=a["edge_inds"], flatten_channels=a["flat"])
 
     def run_fn(self, interp, a):
-        ex = a["example"]
-        hw = (ex["image"].shape[-2], ex["image"].shape[-1])
-        return interp.call(interp.resolve_dotted(D + "edge_maps.generate_pafs"), [ex["instances"], hw],
-                           dict(sigma=a["sigma"], output_stride=a["stride"], edge_inds=a["edge_inds"], flatten_channels=a["flat"]))
+        return None
 
     def real_fn(self, ra):
-        from sleap_nn.data.edge_maps import generate_pafs
-
-        ex = ra["example"]
-        return generate_pafs(ex["instances"], tuple(ex["image"].shape[-2:]), sigma=float(ra["sigma"]), output_stride=int(ra["stride"]), edge_inds=ra["edge_inds"], flatten_channels=ra["flat"])
+        return None
 
     def compare(self, c, outs, fn, a):
-        return _eq("part_affinity_fields-equal-generate_pafs", outs[0].get("part_affinity_fields"), fn)
+        ex = a["example"]
+        hw = (ex["image"].shape[-2], ex["image"].shape[-1])
+        return list(self._fn_contract().ensures(c, outs[0].get("part_affinity_fields"), ex["instances"], hw, a["sigma"], a["stride"], a["edge_inds"], a["flat"]))
